@@ -435,5 +435,5 @@ def run(res, tier):
                 "non-trivial when it contains at least one answered read, contiguity query or release")
     std.run_standard(res, PID, tier, area="memhdr", build_impl=impl, gen_cases=gen_cases, oracle=oracle,
                      corr_name="MemhdrModel (over SplayModel) vs src/stmem.cc, src/mem_node.cc, include/splay.h",
-                     gens=["memhdr"], n_quick=3000, n_thorough=60000, seed_salt=49, mutate=mutate,
+                     gens=["memhdr"], n_quick=3000, n_thorough=40000, seed_salt=49, mutate=mutate,
                      kind_fn=kind, nontrivial_fn=nontrivial)
